@@ -181,8 +181,9 @@ def parse_texts(sd, texts):
     return p21parse.parse(HEAD % sd["name"].upper() + "".join(texts) + TAIL, allow_working=False)["data"]
 
 
-def judge(sd, names, verd, model, r, masks=None):
-    """Failures of one driver run. Returns (failures, outcome{mask: text|None})."""
+def judge(sd, names, verd, model, r, masks=None, skip=()):
+    """Failures of one driver run. Returns (failures, outcome{mask: text|None}).
+    skip: masks that are executed but not asserted (shape of an open known finding, beyond the probes)."""
     fails = []
     if r["rc"] != 0 or r["json"] is None:
         return [{"kind": "crash", "mask": 0, "what": "reader died on a file of complex instances: rc=%s stderr=%s" % (r["rc"], r["err"][-500:])}], {}
@@ -208,7 +209,7 @@ def judge(sd, names, verd, model, r, masks=None):
         elif mask in named:
             fails.append({"kind": "error-names-created-instance", "mask": mask,
                           "what": "an error message names instance #%d %s although it was created" % (mask, mem)})
-        if len(mem) < 2:
+        if len(mem) < 2 or mask in skip:
             continue                                    # singletons: executed, reported, not asserted
         legal = verd[mask]
         if legal and g is None:
@@ -232,7 +233,7 @@ def judge(sd, names, verd, model, r, masks=None):
     return fails, outcome
 
 
-def evaluate(lib, sd, verd, model, texts, wd, tag, masks=None):
+def evaluate(lib, sd, verd, model, texts, wd, tag, masks=None, skip=()):
     """Run the given file variants; per-file oracle + cross-file comparison. Returns (failures, outcomes)."""
     sch = expmodel.Schema(sd)
     names = sch.order
@@ -240,7 +241,7 @@ def evaluate(lib, sd, verd, model, texts, wd, tag, masks=None):
     outs = []
     for k, text in enumerate(texts):
         r = run_file(lib, text, wd, "%s_%d" % (tag, k))
-        f, o = judge(sd, names, verd, model, r, masks)
+        f, o = judge(sd, names, verd, model, r, masks, skip)
         for x in f:
             x["file"] = k
         fails += f
@@ -248,7 +249,7 @@ def evaluate(lib, sd, verd, model, texts, wd, tag, masks=None):
     if len(outs) == 2 and outs[0] and outs[1]:
         for mask in (sorted(model) if masks is None else masks):
             mem = members_of(names, mask)
-            if len(mem) < 2:
+            if len(mem) < 2 or mask in skip:
                 continue
             a, b = outs[0].get(mask), outs[1].get(mask)
             if (a is None) != (b is None):
@@ -288,11 +289,11 @@ def finding_shape(sch, mem, legal):
             have = [s for s in sup if s in S]
             if len(sup) < 2 or not have:
                 return None
-            covered = set()
+            covered = set(x for x in S if not sch.ent(x)["supers"])
             for s in have:
                 covered |= roots_above(s)
             if any(not roots_above(s) <= covered for s in sup if s not in S):
-                return None                     # the missing supertype hangs below a root of its own: a different hierarchy
+                return None                     # the missing supertype hangs below a root that S does not reach at all
         return SHAPE_A
     if not legal:
         return SHAPE_B
@@ -315,7 +316,27 @@ def signature(f, sch, verd, names):
 
 # ---- one case = one graph x (salt) ------------------------------------------------------------------------------------------
 
-PROBES = 3
+PROBES = 2      # per graph and open finding: the first subsets of its shape stay asserted, to show that it still reproduces
+
+
+def open_shapes(ctx):
+    return set(x for x in (SHAPE_A, SHAPE_B, SHAPE_C) if x in ctx.open_sigs)
+
+
+def plan_skips(sch, names, verd, shapes_open):
+    """({mask: shape} not asserted, {mask: shape} probes) for the shapes of open findings."""
+    skip, probes, seen = {}, {}, {}
+    if not shapes_open:
+        return skip, probes
+    for mask in range(1, 1 << len(names)):
+        sh = finding_shape(sch, members_of(names, mask), verd[mask])
+        if sh in shapes_open:
+            seen[sh] = seen.get(sh, 0) + 1
+            if seen[sh] <= PROBES:
+                probes[mask] = sh
+            else:
+                skip[mask] = sh
+    return skip, probes
 
 
 def case(ctx, salt):
@@ -327,39 +348,50 @@ def case(ctx, salt):
         st_["verd"], dis = verdicts(sd)
         assert not dis
         st_["sch"] = expmodel.Schema(sd)
-    verd, sch = st_["verd"], st_["sch"]
+        st_["skip"], st_["probes"] = plan_skips(st_["sch"], st_["sch"].order, st_["verd"], open_shapes(ctx))
+    verd, sch, skip, probes = st_["verd"], st_["sch"], st_["skip"], st_["probes"]
     names = sch.order
     model = make_model(sd, salt)
     texts = [render(sd, model, salt, 0), render(sd, model, salt, 1)]
     tag = ctx.tag()
-    fails, outs = evaluate(lib, sd, verd, model, texts, ctx.wd, tag)
+    fails, outs = evaluate(lib, sd, verd, model, texts, ctx.wd, tag, skip=skip)
     # evidence
     for mask in sorted(model):
         mem = members_of(names, mask)
         nt, cls = subset_class(sch, mem, verd[mask])
+        if mask in skip:
+            ev.exclude("subset of the shape of an open finding, executed but not asserted: " + skip[mask])
+            ev.bump("not-asserted:" + skip[mask])
+            continue
         classes = [cls, "size:%d" % len(mem)]
         if len(mem) == 1 and outs and outs[0]:
             classes.append("singleton:%s-by-reference,%s" % ("legal" if verd[mask] else "illegal", "created" if outs[0].get(mask) else "refused"))
         elif len(mem) > 1:
             classes.append("asserted:legal" if verd[mask] else "asserted:illegal")
+            if any(len(sch.ent(e)["supers"]) > 1 for e in mem):
+                classes.append("asserted:holds-multiply-inheriting-entity")
+        if mask in probes:
+            classes.append("probe:" + probes[mask])
         sample = None
         if nt and len(ev.samples) < 4 and (mask * 7 + salt) % 11 == 0:
             sample = {"graph": graph_text(sd), "subset": sorted(mem), "expected": "created" if verd[mask] else "refused",
                       "instance": "".join(p21render.instance_tokens(model[mask]))}
-        ev.case(common.chash([ctx.schema_hash, mask]), nt, classes=classes, sample=sample)
+        ev.case(common.chash([ctx.schema_hash, mask]), nt and len(mem) > 1, classes=classes, sample=sample)
     ev.bump("files-read", len(texts))
     if not fails:
         return
     unknown = []
     for f in fails:
-        sig = signature(f, sd, sch, names)
+        sig = signature(f, sch, verd, names)
         f["sig"] = sig
-        if ctx.known(sig):
+        if sig in (SHAPE_A, SHAPE_B, SHAPE_C) and f["mask"] in probes and ctx.known(sig):
+            continue
+        if sig not in (SHAPE_A, SHAPE_B, SHAPE_C) and ctx.known(sig):
             continue
         unknown.append(f)
     if unknown:
         f = unknown[0]
-        raise Found({"what": f["what"] + (" (+%d more failing subsets in this graph)" % (len(unknown) - 1) if len(unknown) > 1 else ""),
+        raise Found({"what": f["what"] + (" (+%d more failures in this graph)" % (len(unknown) - 1) if len(unknown) > 1 else ""),
                      "sig": f["sig"], "kind": f["kind"], "mask": f["mask"], "salt": salt, "n_failing": len(unknown),
                      "all": [[x["kind"], x["mask"]] for x in unknown[:40]]})
 
